@@ -53,7 +53,7 @@ def convert_gate_index_to_var_index (c_sys_dim : Int) (gate_index : Int × Int) 
   let var_index : Int := (if (on_para_eq_constraint = true) then (((dim ^ (2 : Nat)) * (row - (1 : Int))) + col) else (((dim ^ (2 : Nat)) * row) + col))
   var_index
 
-/-- quara/objects/mprocess.py:931 `convert_var_index_to_mprocess_index` -/
+/-- quara/objects/mprocess.py:934 `convert_var_index_to_mprocess_index` -/
 def convert_var_index_to_mprocess_index (c_sys_dim : Int) (hss_len : Int) (hss_size : Int) (var_index : Int) (on_para_eq_constraint : Bool) : Int × Int × Int :=
   let dim : Int := c_sys_dim
   let hs_size : Int := ((dim ^ (2 : Nat)) * (dim ^ (2 : Nat)))
@@ -76,7 +76,7 @@ def convert_var_index_to_mprocess_index (c_sys_dim : Int) (hss_len : Int) (hss_s
       row
   (hs_index, row, col)
 
-/-- quara/objects/mprocess.py:969 `convert_mprocess_index_to_var_index` -/
+/-- quara/objects/mprocess.py:972 `convert_mprocess_index_to_var_index` -/
 def convert_mprocess_index_to_var_index (c_sys_dim : Int) (mprocess_index : Int × Int × Int) (hss_len : Int) (hss_size : Int) (on_para_eq_constraint : Bool) : Int :=
   let dim : Int := c_sys_dim
   let hs_size : Int := ((dim ^ (2 : Nat)) * (dim ^ (2 : Nat)))
